@@ -230,6 +230,36 @@ def run(ctx):
                     for t_ in tags:
                         ctx.count(f"kept_tie:{t_}")
                 continue
+            if isinstance(exp, tuple) and exp[0] == "planF":
+                # exact tie of a planner with the Fitter model plugged in (no recorded answers): step list, final document
+                # and the number of times the Fitter was consulted
+                _, name, st, steps, final, nfit, fit_raised = exp
+                ctx.count(f"planF_tie:{name}")
+                if nfit:
+                    ctx.count(f"planF_tie_fitter_consulted:{name}")
+                if st == "ok":
+                    got = out.get("ok")
+                    if not isinstance(got, list) or got[0] != steps:
+                        ctx.mismatch(f"planF({name}): step list", replay, steps, out)
+                    elif got[1] != final:
+                        ctx.mismatch(f"planF({name}): document after the planned steps", replay, "recorded document", "different document")
+                    elif got[2] != nfit:
+                        ctx.mismatch(f"planF({name}): Fitter consultations", replay, nfit, got[2])
+                    else:
+                        ctx.count(f"planF_tie_ok:{name}")
+                        if nfit:
+                            ctx.count(f"planF_tie_ok_fitter_consulted:{name}")
+                            if any(s_[0] == "replaceAround" and not s_[-1] for s_ in steps):
+                                ctx.count(f"planF_tie_ok_fitted_around:{name}")
+                else:
+                    # an exception out of Fitter.fit itself has no class in the Fitter model ("raises"); everything else
+                    # (argument checks, fits_trivially, a step that does not apply) keeps its class
+                    want = "raises" if fit_raised else st
+                    if out.get("err") != want:
+                        ctx.mismatch(f"planF({name}): outcome", replay, want, out)
+                    else:
+                        ctx.count(f"planF_tie_err:{name}:{want}")
+                continue
             if isinstance(exp, tuple) and exp[0] == "plan":
                 # exact tie of a planner: the emitted step list (in order) and the outcome of applying it
                 _, name, st, steps, final = exp
@@ -354,6 +384,31 @@ def run(ctx):
                 d0, f0, t0, m0 = case
                 planned.append((d0, "add_mark", [f0, t0, m0], (lambda f0, t0, m0: lambda tr: tr.add_mark(f0, t0, m0))(f0, t0, m0)))
                 ctx.count("aimed_exclusion_cases")
+        needy = [x for x in schema.nodes.values() if x.is_textblock and not x.content_match.valid_end]
+        if needy:
+            # aimed: retyping whole documents to a textblock type whose content must not be empty — an emptied or empty block
+            # gets fillers, and where the block's old type cannot hold them the Fitter places them (private random stream)
+            rng_needy = __import__("random").Random(ctx.seed * 7919 + si)
+            for d0 in docs[:ctx.budget(4, 8)]:
+                t0 = rng_needy.choice(needy)
+                a0 = gen.gen_attrs(rng_needy, t0)
+                planned.append((d0, "set_block_type", [0, d0.content.size, t0, a0],
+                                (lambda e0, t0, a0: lambda tr: tr.set_block_type(0, e0, t0, a0))(d0.content.size, t0, a0)))
+                ctx.count("aimed_needy_retype_cases")
+            for x0 in [x for x in schema.nodes.values() if x.is_textblock][:6]:
+                # … and a document holding one (filled-to-valid) block of each textblock type
+                try:
+                    b0 = x0.create_and_fill()
+                    d0 = schema.top_node_type.create_checked(None, [b0]) if b0 is not None else None
+                except Exception:  # noqa: BLE001
+                    d0 = None
+                if d0 is None:
+                    continue
+                t0 = rng_needy.choice(needy)
+                a0 = gen.gen_attrs(rng_needy, t0)
+                planned.append((d0, "set_block_type", [0, d0.content.size, t0, a0],
+                                (lambda e0, t0, a0: lambda tr: tr.set_block_type(0, e0, t0, a0))(d0.content.size, t0, a0)))
+                ctx.count("aimed_needy_retype_cases")
         for d in docs:
             # clear_incompatible called directly on any node and any type (the operation is public; set_block_type only
             # ever calls it on textblocks): tied like the other planners, and through `retypedChildren`
@@ -396,6 +451,15 @@ def run(ctx):
                     reqs.append(preq)
                     metas.append((replay, ("plan", name, st, [info.step(s) for s in tr.steps] if st == "ok" else None,
                                            info.node(tr.doc) if st == "ok" else None)))
+                    if bundled and name in ("set_node_markup", "set_block_type", "clear_incompatible"):
+                        # the same planner with the Fitter *model* plugged in (lean/PM/TypePlanFit.lean): no recorded answers
+                        # are sent; the Fitter model is tied exactly on the bundled-family schemas (C11)
+                        freq = {k_: v_ for k_, v_ in preq.items() if k_ != "fits"}
+                        freq["op"] = "planNodeOpF"
+                        reqs.append(freq)
+                        metas.append((replay, ("planF", name, st, [info.step(s) for s in tr.steps] if st == "ok" else None,
+                                               info.node(tr.doc) if st == "ok" else None, len(fit_log),
+                                               bool(fit_log) and fit_log[-1][0] == "err" and st != "ok")))
                 if st != "hang":
                     kept_requests(list(_CLEAR_LOG), replay)
                 if name == "clear_incompatible":
